@@ -222,6 +222,29 @@ impl Rec {
     }
 }
 
+macro_rules! msg_lit0 {
+    () => {
+        "connection established"
+    };
+}
+macro_rules! msg_lit1 {
+    () => {
+        "the quick brown fox jumps over the lazy dog, twice: the quick brown fox jumps over the lazy dog"
+    };
+}
+macro_rules! msg_lit2 {
+    () => {
+        "héllo wörld 漢字 😀 done"
+    };
+}
+macro_rules! msg_lit3 {
+    () => {
+        "x"
+    };
+}
+/// Messages that reach the encoder as argument-free literals (see `with_rec`).
+pub const MSG_LITERALS: [&str; 4] = [msg_lit0!(), msg_lit1!(), msg_lit2!(), msg_lit3!()];
+
 struct Pieces<'a>(&'a [String]);
 impl<'a> fmt::Display for Pieces<'a> {
     fn fmt(&self, f: &mut fmt::Formatter<'_>) -> fmt::Result {
@@ -239,14 +262,26 @@ pub fn with_rec<R>(rec: &Rec, f: impl FnOnce(&log::Record) -> R) -> R {
         log_mdc::insert(k.clone(), v.clone());
     }
     let disp = Pieces(&rec.msg);
-    let r = f(&log::Record::builder()
-        .args(format_args!("{}", disp))
-        .level(rec.level())
-        .target(&rec.target)
-        .module_path(rec.module.as_deref())
-        .file(rec.file.as_deref())
-        .line(rec.line)
-        .build());
+    let build = |args: fmt::Arguments| -> R {
+        f(&log::Record::builder()
+            .args(args)
+            .level(rec.level())
+            .target(&rec.target)
+            .module_path(rec.module.as_deref())
+            .file(rec.file.as_deref())
+            .line(rec.line)
+            .build())
+    };
+    // a message that is one of the compiled-in literals is handed over the way `info!("literal")` does it:
+    // `Arguments::as_str()` is `Some`, no formatting machinery involved
+    let lit = if rec.msg.len() == 1 { MSG_LITERALS.iter().position(|l| *l == rec.msg[0]) } else { None };
+    let r = match lit {
+        Some(0) => build(format_args!(msg_lit0!())),
+        Some(1) => build(format_args!(msg_lit1!())),
+        Some(2) => build(format_args!(msg_lit2!())),
+        Some(3) => build(format_args!(msg_lit3!())),
+        _ => build(format_args!("{}", disp)),
+    };
     log_mdc::clear();
     r
 }
@@ -734,7 +769,7 @@ pub fn msg_pieces() -> impl Strategy<Value = Vec<String>> {
 pub fn rec() -> impl Strategy<Value = Rec> {
     (
         0u8..5,
-        msg_pieces(),
+        prop_oneof![6 => msg_pieces(), 1 => prop::sample::select(MSG_LITERALS.to_vec()).prop_map(|l| vec![l.to_string()])],
         rec_text(),
         prop::option::weighted(0.7, rec_text()),
         prop::option::weighted(0.7, rec_text()),
